@@ -99,6 +99,10 @@ inductive Pc where
   | exited (e : Exit)
   deriving DecidableEq, Repr
 
+def Pc.isExited : Pc → Bool
+  | .exited _ => true
+  | _ => false
+
 structure St where
   cap : Nat
   queue : List Item := []              -- message channel
